@@ -72,7 +72,12 @@ def step (_ : Unit) (line : String) : Unit × String :=
     let names := (List.range 10).filter fun k => ms.contains k
     let out := renderByName names ids pm
     ((), if out.isEmpty then "-" else ",".intercalate (out.map fun e =>
-      s!"M{e.modl}.sam:{e.sl + 1}:{e.sc + 1}-{e.el + 1}:{e.ec + 1}"))
+      let tag := if e.rank == 3 then
+          match e.atoms with
+          | [a] => "3#" ++ showAtom a
+          | _ => "3"
+        else toString e.rank
+      s!"M{e.modl}.sam:{e.sl + 1}:{e.sc + 1}-{e.el + 1}:{e.ec + 1}#{tag}"))
   | ["pord", names] =>
     -- parse order of the modules: names = hex of the dotted module names, indexed by handle;
     -- answer = handles in parse order
